@@ -2,6 +2,15 @@
 from . import stdvals, vtypes
 
 
+def named_values(st, names, value, max_size):
+    """[[name, value], ...] with distinct names.  The names are drawn as a unique list on their own and the values are
+    zipped on: `lists(tuples(name, value), unique_by=...)` rejects duplicates through a filter over the tuple strategy,
+    and Hypothesis formats the repr of that strategy - megabytes for a recursive value strategy - into an event string
+    for every rejection; thousands of cached examples then exhaust the memory."""
+    return st.lists(st.sampled_from(list(names)), max_size=max_size, unique=True).flatmap(
+        lambda ns: st.tuples(*[value for _ in ns]).map(lambda vs: [[n, v] for n, v in zip(ns, vs)]))
+
+
 def sub_strategy(S):
     """subclass instances of the built-in bases (C08 domain)"""
     st = S['st']
